@@ -114,6 +114,23 @@ class _P:
             neg = self.kw("NOT")
             r = self.add()
             return ("is", neg, l, r)
+        if self.kw("BETWEEN"):
+            lo = self.add()
+            if not self.kw("AND"):
+                raise SqlError("BETWEEN without AND")
+            hi = self.add()
+            return ("between", l, lo, hi)
+        if self.kw("IN"):
+            self.expect("op", "(")
+            items = []
+            while True:
+                items.append(self.expr())
+                if self.accept("op", ")"):
+                    break
+                self.expect("op", ",")
+            return ("in", l, tuple(items))
+        if self.kw("LIKE"):
+            return ("like", l, self.add())
         return l
 
     def add(self):
@@ -259,7 +276,41 @@ def _stmt(p):
             if p.accept("op", ")"):
                 break
             p.expect("op", ",")
-        return {"kind": "insert", "conflict": conflict, "table": table, "cols": cols, "values": vals}
+        upsert = None
+        if p.kw("ON", "CONFLICT"):
+            target = []
+            if p.accept("op", "("):
+                while True:
+                    c = p.next()
+                    target.append(str(c[1]).lower())
+                    if p.accept("op", ")"):
+                        break
+                    p.expect("op", ",")
+            if not (p.peek() == ("id", "do")):
+                raise SqlError("ON CONFLICT without DO")
+            p.next()
+            if p.peek() == ("id", "nothing"):
+                p.next()
+                upsert = {"target": target, "action": "nothing", "set": []}
+                conflict = "IGNORE"
+            elif p.kw("UPDATE"):
+                if not p.kw("SET"):
+                    raise SqlError("DO UPDATE without SET")
+                sets = []
+                while True:
+                    c = p.next()
+                    p.expect("op", "=")
+                    e = p.expr()
+                    sets.append((str(c[1]).lower(), e))
+                    if not p.accept("op", ","):
+                        break
+                if p.kw("WHERE"):
+                    p.expr()
+                upsert = {"target": target, "action": "update", "set": sets}
+                conflict = "UPSERT"
+            else:
+                raise SqlError("unsupported ON CONFLICT action")
+        return {"kind": "insert", "conflict": conflict, "table": table, "cols": cols, "values": vals, "upsert": upsert}
     if p.kw("CREATE", "TABLE"):
         ine = p.kw("IF", "NOT", "EXISTS")
         table = p.expect("id")[1]
